@@ -679,6 +679,52 @@ def l_spec(mark, shape, exts, lists):
     return {"classes": classes}
 
 
+def iso_classes(shape_list):
+    """Groups creation-ordered shapes that differ only in the order in which unrelated classes were created
+    (a relabelling of the classes that keeps every ordered base list).  -> sorted list of sorted groups."""
+    groups = {}
+    for shape in shape_list:
+        n = len(shape)
+        best = None
+        for sigma in itertools.permutations(range(n)):
+            if any(sigma[b] >= sigma[i] for i in range(n) for b in shape[i]):
+                continue
+            t = [None] * n
+            for i in range(n):
+                t[sigma[i]] = tuple(sigma[b] for b in shape[i])
+            t = tuple(t)
+            if best is None or t < best:
+                best = t
+        groups.setdefault(best, []).append(shape)
+    return [sorted(g) for _, g in sorted(groups.items())]
+
+
+def first_use_canonical(ls):
+    """True when the pool files appear in the order 0, 1, 2, ... on their first use (classes in creation order,
+    each list left to right): exactly one representative of every orbit of the pool-renaming symmetry."""
+    nxt = 0
+    for lst in ls:
+        for k in lst:
+            if k > nxt:
+                return False
+            if k == nxt:
+                nxt += 1
+    return True
+
+
+def l4_stream(mark, shape_list, rot):
+    """n = 4, extend = True everywhere, pool of 3 files, every ordered sub-list of <= 2 entries per class, modulo
+    renaming of the pool; `rot` (from VERIF_SEED) only chooses which renaming represents an orbit."""
+    perm = list(itertools.permutations(range(3)))[rot % 6]
+    lists = l_lists([0, 1, 2], 2)
+    o = orders_for(4, "first")
+    orders = [o[0], o[-1]]  # ancestors first (ascending) and sink first (descending)
+    for shape in shape_list:
+        for ls in itertools.product(lists, repeat=4):
+            if first_use_canonical(ls):
+                yield l_spec(mark, shape, [True] * 4, [[perm[k] for k in lst] for lst in ls]), orders
+
+
 def l_stream(mark, tier):
     pool = [0, 1] if tier == "quick" else [0, 1, 2]
     lists = l_lists(pool, 2)
@@ -688,13 +734,17 @@ def l_stream(mark, tier):
             for exts in itertools.product(*ext_opts):
                 for ls in itertools.product(lists, repeat=n):
                     yield l_spec(mark, shape, exts, ls), orders_for(n, "first")
-    if tier != "quick":
+    rot = "abcdefgh".index(mark)
+    sinks4 = [s for s in shapes(4, 2) if single_sink(s)]
+    if tier == "quick":
+        # one creation order per hierarchy (the seed rotates which one): 12 of the 20 single-sink shapes
+        yield from l4_stream(mark, [g[rot % len(g)] for g in iso_classes(sinks4)], rot)
+    else:
         lists2 = l_lists([0, 1], 2)
-        for shape in shapes(4, 2):
-            if not single_sink(shape):
-                continue
+        for shape in sinks4:
             for ls in itertools.product(lists2, repeat=4):
                 yield l_spec(mark, shape, [True] * 4, ls), orders_for(4, "first")[-2:]
+        yield from l4_stream(mark, sinks4, rot)
 
 
 def f_forms(mark):
